@@ -70,11 +70,19 @@ class Sim:
     def queue(self, name, delay=None):
         self.next_uid += 1
         uid = self.next_uid
+        # both documented calling conventions: an Event instance, or a name with keyword parameters
+        by_name = uid % 2 == 0
         if delay is None:
-            self.it.queue(Event(name, uid=uid))
+            if by_name:
+                self.it.queue(name, uid=uid)
+            else:
+                self.it.queue(Event(name, uid=uid))
             due = self.lastT
         else:
-            self.it.queue(Event(name, uid=uid, delay=delay))
+            if by_name:
+                self.it.queue(name, uid=uid, delay=delay)
+            else:
+                self.it.queue(Event(name, uid=uid, delay=delay))
             due = self.lastT + F(delay)
         self.expect_external(uid, name, due)
         return uid
@@ -82,8 +90,9 @@ class Sim:
     def expect_external(self, uid, name, due):
         """the model learns that an external event was put in this interpreter's queue"""
         self.q.put(False, due, uid, name)
-        self.all_uids[(uid, False)] = {'name': name, 'due': due, 'internal': False, 'consumed_at': None,
-                                       'queued_at_step': self.k}
+        if uid is not None:
+            self.all_uids[(uid, False)] = {'name': name, 'due': due, 'internal': False, 'consumed_at': None,
+                                           'queued_at_step': self.k}
 
     def advance(self, d):
         self.clock.advance(float(d))
@@ -155,8 +164,9 @@ class Sim:
                         d = e.data.get('delay')
                         due = F(it.time) + (F(d) if d is not None else 0)
                         self.q.put(True, due, uid, e.name)
-                        self.all_uids[(uid, True)] = {'name': e.name, 'due': due, 'internal': True,
-                                                      'consumed_at': None, 'queued_at_step': r.k}
+                        if uid is not None:
+                            self.all_uids[(uid, True)] = {'name': e.name, 'due': due, 'internal': True,
+                                                          'consumed_at': None, 'queued_at_step': r.k}
                         r.sent.append((uid, e.name, d))
             e = r.ms.event
             if e is not None:
@@ -164,10 +174,11 @@ class Sim:
                 internal = isinstance(e, InternalEvent)
                 r.consumed_uid = uid
                 r.consumed_key = (uid, internal)
-                r.consumed_head = (h is not None and h[2] == uid and (hq is self.q.internal) == internal)
+                r.consumed_head = (h is not None and h[2] == uid and (hq is self.q.internal) == internal
+                                   and (uid is not None or h[3] == e.name))
                 q = self.q.internal if internal else self.q.external
                 for item in list(q):
-                    if item[2] == uid:
+                    if item[2] == uid and (uid is not None or item[3] == e.name):
                         q.remove(item)
                         break
                 if (uid, internal) in self.all_uids:
